@@ -642,6 +642,11 @@ def check(ctx):
     check_partition(ctx)
     check_struct_block(ctx)
     check_primitive_siblings(ctx)
+    from .c04 import check_templates_decode
+    check_templates_decode(ctx, 'R2-generated-decode-strict')
+    # append / extend go through insert (same collision checks whatever the fragment granularity)
+    from .c11 import check as c11_check
+    c11_check(ctx, parts=('append',))
     check_options(ctx)
     check_comments(ctx)
     ctx.floor('drivers analysed', ctx.units.get('drivers', 0), 4)
